@@ -59,7 +59,7 @@ func (C16) New() any { return &C16Scenario{} }
 
 func (C16) Gen(t *tape.Tape, tier string) any {
 	sc := &C16Scenario{}
-	shapes := []gen.Shape{gen.ShapeFlat, gen.ShapeNested, gen.ShapeLogical}
+	shapes := []gen.Shape{gen.ShapeFlat, gen.ShapeNested, gen.ShapeLogical, gen.ShapeDyn, gen.ShapeGen}
 	sc.Plan = GenWritePlan(t, shapes, 800)
 	if sc.Plan.NRows < 4 {
 		sc.Plan.NRows = 4 + t.Draw(60)
@@ -125,6 +125,10 @@ func (C16) Run(s any, c *core.Ctx) core.Outcome {
 	}
 	fileBytes := res.Sink.Bytes()
 	if v := c16KeptRows(c, sh, pristine); v != nil {
+		out.Violation = v
+		return out
+	}
+	if v := c16MapRows(c, sh, fileBytes, len(model)); v != nil {
 		out.Violation = v
 		return out
 	}
@@ -405,6 +409,24 @@ func c16KeptRows(c *core.Ctx, sh gen.Shape, pristine gen.Data) *core.Violation {
 				return core.Violate("C16/write-error/sorting-writer", "Close: %v", err)
 			}
 			_ = sink
+			// the other direction: the writer must not depend on the caller's memory
+			// after WriteRows returned. Private copies are overwritten right after
+			// each call; the file (sorted by id = the order written) holds the model
+			sink2, face2 := env.NewSink(c, env.SinkFaces{}, nil)
+			w2 := sh.NewSortingWriter(face2, 5, parquet.SortingWriterConfig(parquet.SortingColumns(parquet.Ascending("id"))))
+			for lo := 0; lo < n; lo += 3 {
+				mine := gen.CloneRows(model[lo:min(lo+3, n)])
+				if _, err := w2.WriteRows(mine); err != nil {
+					return core.Violate("C16/write-error/sorting-writer", "%v", err)
+				}
+				gen.Scribble(mine)
+			}
+			if err := w2.Close(); err != nil {
+				return core.Violate("C16/write-error/sorting-writer", "Close: %v", err)
+			}
+			if v := c16FileHolds(c, sink2.Bytes(), model[:n], "sorting-writer"); v != nil {
+				return v
+			}
 		case "row-buffer":
 			buf := sh.NewBuffer(gen.BRow)
 			for gen := 0; gen < 3; gen++ {
@@ -417,10 +439,117 @@ func c16KeptRows(c *core.Ctx, sh gen.Shape, pristine gen.Data) *core.Violation {
 				}
 				buf.Reset()
 			}
+			for gen_ := 0; gen_ < 3; gen_++ {
+				lo, hi := gen_*n/3, (gen_+1)*n/3
+				mine := gen.CloneRows(model[lo:hi])
+				if _, err := buf.WriteRows(mine); err != nil {
+					return core.Violate("C16/write-error/row-buffer", "%v", err)
+				}
+				gen.Scribble(mine)
+				got, v := drainRows(buf.Rows())
+				if v != nil {
+					v.Class = "C16/read-error/row-buffer"
+					return v
+				}
+				if len(got) != hi-lo {
+					return core.Violate("C16/writer-kept-callers-memory/row-buffer", "buffer holds %d rows after WriteRows of %d", len(got), hi-lo)
+				}
+				for i := range got {
+					if d := gen.RowDiff(model[lo+i], got[i]); d != "" {
+						return core.Violate("C16/writer-kept-callers-memory/row-buffer", "row %d read from the buffer after the caller reused the memory of the rows it had passed to WriteRows: %s", lo+i, d)
+					}
+				}
+				buf.Reset()
+			}
 		}
 		if v := check("at the end"); v != nil {
 			return v
 		}
 	}
+	return nil
+}
+
+// c16FileHolds reads a file back and compares it with the model rows.
+func c16FileHolds(c *core.Ctx, data []byte, model []parquet.Row, subject string) *core.Violation {
+	sf := env.NewFile(c, data)
+	f, err := parquet.OpenFile(sf, sf.Size())
+	if err != nil {
+		return core.Violate("C16/open-error/"+subject, "%v", err)
+	}
+	var got []parquet.Row
+	for _, rg := range f.RowGroups() {
+		rows, v := drainRows(rg.Rows())
+		if v != nil {
+			v.Class = "C16/read-error/" + subject
+			return v
+		}
+		got = append(got, rows...)
+	}
+	if len(got) != len(model) {
+		return core.Violate("C16/writer-kept-callers-memory/"+subject, "file holds %d rows, %d were written", len(got), len(model))
+	}
+	for i := range got {
+		if d := gen.RowDiff(model[i], got[i]); d != "" {
+			return core.Violate("C16/writer-kept-callers-memory/"+subject, "row %d of the file written from rows whose memory the caller reused after WriteRows returned: %s", i, d)
+		}
+	}
+	return nil
+}
+
+// c16MapRows reads the file as map[string]any rows into a batch slice that is
+// reused while the maps of earlier batches are kept: a group rebuilt into a Go
+// map must not be filled into the map object handed out by an earlier call.
+func c16MapRows(c *core.Ctx, sh gen.Shape, data []byte, nrows int) (v *core.Violation) {
+	if nrows == 0 {
+		return nil
+	}
+	defer func() {
+		if p := recover(); p != nil {
+			v = core.Violate("C16/panic/map-rows", "panic: %v%s", p, core.StackIfWanted())
+		}
+	}()
+	sf := env.NewFile(c, data)
+	f, err := parquet.OpenFile(sf, sf.Size())
+	if err != nil {
+		return core.Violate("C16/open-error/map-rows", "%v", err)
+	}
+	r := parquet.NewGenericReader[map[string]any](f, sh.Schema())
+	defer r.Close()
+	batch := make([]map[string]any, 7)
+	for i := range batch {
+		batch[i] = map[string]any{}
+	}
+	type keptMap struct {
+		m    map[string]any
+		snap string
+		row  int
+	}
+	var kept []keptMap
+	row := 0
+	for calls := 0; calls < 40; calls++ {
+		n, err := r.Read(batch)
+		for i := 0; i < n; i++ {
+			kept = append(kept, keptMap{m: batch[i], snap: fmt.Sprintf("%#v", batch[i]), row: row})
+			row++
+		}
+		for _, k := range kept {
+			if now := fmt.Sprintf("%#v", k.m); now != k.snap {
+				return core.Violate("C16/typed-value-changed/map-rows", "the map returned for row %d changed after a later Read into the same batch slice", k.row)
+			}
+		}
+		if len(kept) > 64 {
+			kept = kept[len(kept)-64:]
+		}
+		if err != nil {
+			if !errors.Is(err, io.EOF) {
+				return core.Violate("C16/read-error/map-rows", "%v", err)
+			}
+			break
+		}
+		if n == 0 {
+			break
+		}
+	}
+	c.Probe("map-rows-read")
 	return nil
 }
